@@ -286,6 +286,28 @@ def default_entry(n: N) -> List[N]:
     return out
 
 
+def hist_skeletons(tier: str = "quick") -> List[Tree]:
+    """Structured larger trees around one history node: root C( X(H, s1, s2), A )
+    with X in {C, P}, H in {Hs, Hd} and s1, s2 from a menu of small subtrees
+    (atomic, final, compound with/without a final child, parallel).  They realise
+    the parent-kind x child-kind x depth-3 combinations TREE(N<=5) cannot reach."""
+    A_, F_ = ("A", ()), ("F", ())
+    menu_p = [A_, ("C", (A_, A_)), ("C", (A_, F_)), ("C", (F_, A_)), ("P", (A_, A_))]
+    menu_c = menu_p + [F_]
+    if tier == "quick":
+        menu_p = [A_, ("C", (A_, F_)), ("P", (A_, A_))]
+        menu_c = menu_p + [F_]
+    out: List[Tree] = []
+    for xkind, menu in (("C", menu_c), ("P", menu_p)):
+        for hk in ("Hs", "Hd"):
+            for s1 in menu:
+                for s2 in menu:
+                    if xkind == "C" and s1 == F_ and s2 == F_:
+                        continue
+                    out.append(("C", ((xkind, ((hk, ()), s1, s2)), A_)))
+    return out
+
+
 if __name__ == "__main__":
     for k in range(1, 7):
         print(k, len(trees_exact(k)))
